@@ -135,6 +135,8 @@ def render (pre : World) (st : WSt) (c : Ctx) (ad : Addr := {}) : String :=
       if f.startsWith "ctrl 401 " then f else chanFor pre c.w ad sid (renameFor s.uid f))) []).map
       (fun f => s!"{s.sid}<-{f}"))
   -- sessions created before this op only; all frames belong to known sessions
+  -- (the order in which the topics learn of a timer or a dropped connection is not defined: those frames are compared sorted, as rendered)
+  let frames := if ad.op = "drop" ∨ ad.op = "fg" then frames.mergeSort (· ≤ ·) else frames
   let parts := frames ++ c.pushes ++ [s!"calls={",".intercalate c.calls}"] ++ cacheDigest c.w ++ storeDigest c.w ++ sessDigest c.w
   " | ".intercalate parts
 
